@@ -8,6 +8,7 @@ import (
 	"strings"
 
 	"dario.cat/mergo"
+	"github.com/f1bonacc1/process-compose/src/command"
 	"github.com/f1bonacc1/process-compose/src/types"
 )
 
@@ -29,6 +30,13 @@ func verifFoldUnmarshal(in []byte, out interface{}) error {
 			p.LogLevel = l[len("log_level: "):]
 		case strings.HasPrefix(l, "extends: "):
 			p.ExtendsProject = l[len("extends: "):]
+		case strings.HasPrefix(l, "shell: {shell_command: sh, shell_argument: "):
+			// (a YAML decoder fills the struct that is already there, or makes one)
+			if p.ShellConfig == nil {
+				p.ShellConfig = &command.ShellConfig{}
+			}
+			p.ShellConfig.ShellCommand = "sh"
+			p.ShellConfig.ShellArgument = strings.TrimSuffix(l[len("shell: {shell_command: sh, shell_argument: "):], "}")
 		case strings.HasPrefix(l, "  svc: {command: "):
 			if p.Processes == nil {
 				p.Processes = types.Processes{}
@@ -47,6 +55,24 @@ func verifFoldMerge(dst, src interface{}, opts ...func(*mergo.Config)) error {
 		s := src.(*types.Project)
 		if s.LogLevel != "" {
 			d.LogLevel = s.LogLevel
+		}
+		if s.ShellConfig != nil {
+			// pointer to struct: non-empty fields of src replace those of dst
+			if d.ShellConfig == nil {
+				d.ShellConfig = &command.ShellConfig{}
+			}
+			if s.ShellConfig.ShellCommand != "" {
+				d.ShellConfig.ShellCommand = s.ShellConfig.ShellCommand
+			}
+			if s.ShellConfig.ShellArgument != "" {
+				d.ShellConfig.ShellArgument = s.ShellConfig.ShellArgument
+			}
+			if s.ShellConfig.ElevatedShellCmd != "" {
+				d.ShellConfig.ElevatedShellCmd = s.ShellConfig.ElevatedShellCmd
+			}
+			if s.ShellConfig.ElevatedShellArg != "" {
+				d.ShellConfig.ElevatedShellArg = s.ShellConfig.ElevatedShellArg
+			}
 		}
 		if s.Processes != nil {
 			if d.Processes == nil {
@@ -96,7 +122,7 @@ func VerifC15_Fold() {
 		defer os.RemoveAll(dir)
 	}
 	verifFiles = map[string]string{}
-	wantLevel, wantCmd := "", ""
+	wantLevel, wantCmd, wantShellArg := "", "", ""
 	// expected: fold from the most distant ancestor to the child
 	for k := depth - 1; k >= 0; k-- {
 		text := "version: \"0.5\"\n"
@@ -110,6 +136,11 @@ func VerifC15_Fold() {
 		if verifChoose(2) == 1 {
 			text += "processes:\n  svc: {command: run-" + names[k][:1] + "}\n"
 			wantCmd = "run-" + names[k][:1]
+		}
+		if verifChoose(2) == 1 {
+			// a project-level section that later files do not mention must survive them
+			text += "shell: {shell_command: sh, shell_argument: -e" + names[k][:1] + "}\n"
+			wantShellArg = "-e" + names[k][:1]
 		}
 		path := filepath.Join(dir, names[k])
 		verifFiles[path] = text
@@ -136,6 +167,17 @@ func VerifC15_Fold() {
 	}
 	verifObserveStr("svc.command", cmd)
 	verifAssert("process.field.latest.file.wins", cmd == wantCmd)
+	shellArg := ""
+	if prj.ShellConfig != nil {
+		shellArg = prj.ShellConfig.ShellArgument
+		if wantShellArg != "" {
+			verifAssert("shell.command.kept", prj.ShellConfig.ShellCommand == "sh")
+		}
+	}
+	verifObserveStr("shell.argument", shellArg)
+	if wantShellArg != "" {
+		verifAssert("project.level.section.latest.file.that.sets.it.wins", shellArg == wantShellArg)
+	}
 	// the file list is in fold order: ancestors first
 	verifAssert("file.count", len(opts.FileNames) == depth)
 	if len(opts.FileNames) == depth {
